@@ -136,7 +136,8 @@ JudgeBackward(e) ==
       seen(n) == \E hh \in (DOMAIN S.hd) \ Hidden :
                     /\ S.hd[hh].n = n /\ hh \in ObsHandles(e)
                     /\ ObsOf(e, hh).g /\ (IsSome(S.grad[n]) => (Has(ObsOf(e, hh), "gt") /\ Exact /\ TMatch(ObsOf(e, hh).gt, plus(n).x)))
-      stored == { n \in 1..root : MayStore(S, h, adj, n) /\ seen(n) }
+      weak == WeakKids(S, root, adj)
+      stored == { n \in 1..root : MayStoreW(S, h, adj, weak, n) /\ seen(n) }
       S2 == BackwardWith(S, h, adj, stored)
       \* derivative invocations of user operations (C11)
       expectU == { S.nodes[n].uid : n \in { m \in EvaluatedWith(S, h, adj) : S.nodes[m].op \in CustomOps } }
